@@ -286,6 +286,29 @@ def expect_violation(module, cfg, **kw):
     return r
 
 
+def apalache_lemma(relpath, inv="Lemma", expect_error=False, timeout=180):
+    """Symbolic side lemma (never gates a check): returns "discharged" / "refuted" / "unavailable: ...".  Used for the
+    SeqNum window lemma at the real modulus 2^32 (DESIGN 2.4)."""
+    import tempfile
+    d = tempfile.mkdtemp(prefix="apa-")
+    try:
+        r = subprocess.run(["apalache-mc", "check", "--length=0", "--inv=" + inv, "--out-dir=" + d, os.path.join(SPEC, relpath)],
+                           stdout=subprocess.PIPE, stderr=subprocess.STDOUT, timeout=timeout, cwd=d)
+        out = r.stdout.decode(errors="replace")
+        if "The outcome is: NoError" in out:
+            res = "discharged"
+        elif "The outcome is: Error" in out or "violat" in out:
+            res = "refuted"
+        else:
+            res = "unavailable: rc=%d" % r.returncode
+    except (subprocess.TimeoutExpired, OSError) as e:
+        res = "unavailable: %s" % type(e).__name__
+    finally:
+        shutil.rmtree(d, ignore_errors=True)
+    log("[apalache] %s %s: %s%s" % (relpath, inv, res, " (a refutation is expected here)" if expect_error else ""))
+    return res
+
+
 def scenarios_from(out):
     """Behaviours exported by `CONSTRAINT Emit` as PrintT("SCN " \\o ToJson(..)) lines."""
     res = []
